@@ -654,6 +654,15 @@ pub fn selection_oracle(property: &str, inv: &Invocation, world: &World, ex: &Ex
             }
         }
     }
+    let (missing_kf8, missing): (Vec<String>, Vec<String>) = missing.into_iter().partition(|p| ex.selection.kf8_candidates.contains(p));
+    if !missing_kf8.is_empty() {
+        out.push(v(
+            property,
+            "select/selected-file-not-processed/respect-ignores-explicit-path-non-nearest-ignore-file".into(),
+            format!("{:?}", missing_kf8),
+            idx,
+        ));
+    }
     let (missing_kf9, missing): (Vec<String>, Vec<String>) = missing.into_iter().partition(|p| ex.selection.kf9_candidates.contains(p));
     if !missing.is_empty() {
         out.push(v(property, "select/selected-file-not-processed".into(), format!("{:?}", missing), idx));
